@@ -172,7 +172,8 @@ BIG_INT = re.compile(r"(?<![\w.\"])-?\d{19,}(?![\w.\"])")
 
 class WideCtx:
     """The context of the `wide` programs: a disagreement on a document that carries an integer literal outside the
-    64-bit range gets one signature of its own (so that the recorded finding covers exactly that and nothing else)."""
+    64-bit range, or that the wrapper refuses with its 128-bit diagnostics, gets one signature of its own (so that the
+    recorded finding covers exactly that and nothing else)."""
 
     def __init__(self, ctx):
         self._ctx = ctx
@@ -183,7 +184,8 @@ class WideCtx:
     def violate(self, signature, what, detail):
         doc = (detail or {}).get("doc") or ""
         big = [int(x) for x in BIG_INT.findall(doc)]
-        if any(v >= 2**64 or v < -2**63 for v in big):
-            self._ctx.count("documents_with_integers_beyond_64_bits_disagreeing")
-            return self._ctx.violate("wide-int-beyond-64-bits", what, detail)
+        err = json.dumps((detail or {}).get("wrapper") or "") + what
+        if any(v >= 2**64 or v < -2**63 for v in big) or re.search(r"[ui]128 is not supported|Invalid number", err):
+            self._ctx.count("documents_with_128_bit_integers_disagreeing")
+            return self._ctx.violate("wide-int-128-bit-argument", what, detail)
         return self._ctx.violate(signature, what, detail)
